@@ -150,7 +150,7 @@ def inline_comment_on_continued_line():
 
 
 def search(seed=0, keep_n=400):
-    hit = limit_off_case() or inline_comment_on_continued_line() or preprocessed_fixed_case() or comment_lines_between_continuations()
+    hit = limit_off_case() or inline_comment_on_continued_line() or preprocessed_fixed_case() or comment_lines_between_continuations() or included_fixed_form()
     if hit:
         return hit
     n = 0
@@ -211,4 +211,24 @@ def comment_lines_between_continuations():
     if a != b:
         return {"confirmed": True, "input": {"fixed": fixed, "free": free}, "actual": b, "expected": a,
                 "how": "real FortranReader(fixed=True) vs the free-form rendering: blank and comment lines between continuation lines"}
+    return None
+
+
+def included_fixed_form():
+    """a file pulled in with INCLUDE from a fixed-form source is fixed form too (comment lines, column-6 continuation, columns 73+)"""
+    import contextlib, io
+    inc = ("C     declarations kept in an include file\n      integer n\n      real tol,\n     &     eps\n      real work(10)                                                     DECL0010\n")
+    fixed = "      subroutine s(n, tol)\n      include 'decls.inc'\n      end subroutine s\n"
+    free = "subroutine s(n, tol)\ninteger n\nreal tol, &\n  eps\nreal work(10)\nend subroutine s\n"
+    rd = loader.import_repo("ford.reader")
+    want = read(free, False)
+    with realrun.project_dir({"t.f": fixed, "decls.inc": inc}) as d:
+        try:
+            with contextlib.redirect_stdout(io.StringIO()):
+                got = norm(list(rd.FortranReader(os.path.join(d, "t.f"), docmark="!", fixed=True, length_limit=True)))
+        except Exception as e:
+            got = f"{type(e).__name__}: {e}"
+    if got != want:
+        return {"confirmed": True, "input": {"fixed": fixed, "decls.inc": inc}, "actual": got, "expected": want,
+                "how": "real FortranReader(fixed=True) on a file that INCLUDEs fixed-form declarations vs the free-form rendering"}
     return None
